@@ -129,6 +129,18 @@ def corpus():
             extra.append("\ufeff" + s)
             extra.append("/*\u00e9\U0001f525*/" + s)
             extra.append("\u00e9=1;\n" + s)
+    # end-of-input closure: every nesting of up to three constructs cut off right after their openers
+    openers = ['"', "'", "%str(", "%nrstr((", "%eval(", "%eval((1 ", "%if (", "%if ", "%do i=(", "%do i=1 %to (", "%do %while(", "%m(", "%m(a=(",
+               "%let a=", "%let ", "%put ", "%sysfunc(abs(", "%scan(a,", "%macro m(a=", "%macro ", "%goto ", "%local / ", "%copy m ", "/* ", "%* ", "&a", "data;cards;\n1"]
+    for a in openers:
+        extra.append(a)
+        extra.append(a + "1")
+        for b in openers:
+            extra.append(a + b)
+            extra.append(a + b + "1")
+            for c in ('"', "%eval((", "%if (", "%str((", "%m((", "%do i=(1 "):
+                extra.append(a + b + c)
+                extra.append(a + b + c + "1")
     for s in extra:
         if s not in seen:
             seen.add(s)
@@ -325,8 +337,19 @@ def differential(pid, inputs):
                     return i2[fn], "a leading byte-order mark changes lines/columns in the bulk resolved-token view"
     elif pid == "C16":
         variants = []
+
+        def alt(s, phase):
+            # alternating case over the ASCII letters (dT / Dt, eQ / Eq, ...)
+            out, k = [], phase
+            for ch in s:
+                if ch.isascii() and ch.isalpha():
+                    out.append(ch.upper() if k % 2 == 0 else ch.lower())
+                    k += 1
+                else:
+                    out.append(ch)
+            return "".join(out)
         for s in inputs:
-            for v in (s.upper(), s.lower(), s.swapcase()):
+            for v in (s.upper(), s.lower(), s.swapcase(), alt(s, 0), alt(s, 1)):
                 # only ASCII letters may change
                 w = "".join(b if (a.isascii() and a.isalpha()) else a for a, b in zip(s, v)) if len(v) == len(s) else None
                 if w is not None and w != s:
@@ -351,7 +374,9 @@ def differential(pid, inputs):
                 if canon(ta) != canon(tb) or ea != eb:
                     return i2[fn], f"tokenization depends on ASCII letter case (variant of {i1[fn]!r})"
     elif pid == "C15":
-        closers = ["x=1;", "%let a=1;", "data a;\nset b; run;", "%put done;", "/* c */\n y;", "%macro m; %mend;", "x='a''b';", "data;cards;\n1\n;"]
+        closers = ["x=1;", "%let a=1;", "data a;\nset b; run;", "%put done;", "/* c */\n y;", "%macro m; %mend;", "x='a''b';", "data;cards;\n1\n;",
+                   "%do %while(&i<3); x&i %end;", "%do %until(&i>3); %put a; y %end;", "%macro v(n); %do i=1 %to &n; x&i %end; total %mend;",
+                   "%if &a %then %do; z %end; %else %do; w %end;", "%m(a=1, b=(2,3))\n;", "%lbl: %goto lbl;", "%let q=%str(%'a);", "/* c */ * d;"]
         pairs = [(a, b) for a in closers for b in inputs[:400]]
         dA, iA = _write_dir("diff-C15a", closers)
         dB, iB = _write_dir("diff-C15b", inputs[:400])
